@@ -486,6 +486,9 @@ static void _binson_print_cb(binson_parser *parser, uint16_t next_state, void *c
             if (state->array_depth > 0) {
                 *pstate = 0x05;
             }
+            else {
+                *pstate = 0x02;
+            }
             printf("}");
             break;
         case BINSON_STATE_PARSED_ARRAY_BEGIN:
@@ -593,6 +596,9 @@ static void _binson_to_string_cb(binson_parser *parser, uint16_t next_state, voi
         case BINSON_STATE_PARSED_OBJECT_END:
             if (state->array_depth > 0) {
                 *pstate = 0x05;
+            }
+            else {
+                *pstate = 0x02;
             }
             ret = snprintf(pbuf, available, "}");
             break;
